@@ -381,6 +381,9 @@ func callOrdinal(c *ssa.Call) string {
 					if _, isB := cl.Call.Value.(*ssa.Builtin); isB {
 						continue
 					}
+					if pureCallee(CalleeName(&cl.Call)) {
+						continue // equal arguments give equal results: no need to tell instances apart
+					}
 					k := callTerm(&cl.Call, 0, map[ssa.Value]bool{})
 					groups[k] = append(groups[k], cl)
 				}
@@ -401,4 +404,17 @@ func callOrdinal(c *ssa.Call) string {
 		ordCache[fn] = m
 	}
 	return m[c]
+}
+
+var purePrefixes = []string{"encoding/hex.", "geth/common.BytesTo", "geth/common.HexTo", "geth/crypto.Keccak256", "(geth/common.Hash).", "(geth/common.Address).",
+	"strings.", "fmt.Sprintf", "fmt.Sprint", "math/big.NewInt", "(N/vaa.Address).", "(N/vaa.ChainID).", "N/processor.CalculateQuorum", "encoding/binary.", "(encoding/binary.",
+	"go.uber.org/zap."}
+
+func pureCallee(name string) bool {
+	for _, p := range purePrefixes {
+		if strings.HasPrefix(name, p) {
+			return true
+		}
+	}
+	return false
 }
